@@ -74,7 +74,6 @@ type ibcEnv struct {
 
 func newIbcEnv(t *testing.T, nSeq int) *ibcEnv {
 	e := &ibcEnv{t: t, f: NewFix(t), owner: Actor(299)}
-	a := e.f.App
 	for i := 0; i < nSeq; i++ {
 		priv := ed25519.GenPrivKeyFromSecret([]byte(fmt.Sprintf("dymverif-ibc-seq-%d", i)))
 		pkAny, err := codectypes.NewAnyWithValue(priv.PubKey())
@@ -86,6 +85,34 @@ func newIbcEnv(t *testing.T, nSeq int) *ibcEnv {
 		e.seqPk = append(e.seqPk, pkAny)
 		e.f.Fund(Actor(200+i), sdk.NewCoin(ibcDenom, math.NewIntFromUint64(1_000_000_000)))
 	}
+	e.finishEnv()
+	return e
+}
+
+// newIbcEnvOnCore builds the IBC environment on the fixture of an M-Core harness, with the dymint
+// keys of its (address-sorted) actors.
+func newIbcEnvOnCore(t *testing.T, h *coreH) *ibcEnv {
+	e := &ibcEnv{t: t, f: h.f, owner: h.owner}
+	for k, a := range h.actors {
+		for i := 0; i < h.p.NActors; i++ {
+			if Actor(100 + i).Equals(a) {
+				priv := ed25519.GenPrivKeyFromSecret([]byte(fmt.Sprintf("dymverif-core-seq-%d", i)))
+				e.seqAddr = append(e.seqAddr, a)
+				e.seqPriv = append(e.seqPriv, cmted25519.PrivKey(priv.Key))
+				e.seqPk = append(e.seqPk, h.pubkeys[k])
+			}
+		}
+	}
+	if len(e.seqAddr) != len(h.actors) {
+		t.Fatal("actor keys")
+	}
+	e.finishEnv()
+	return e
+}
+
+func (e *ibcEnv) finishEnv() {
+	t := e.t
+	a := e.f.App
 	e.relPriv = secp256k1.GenPrivKeyFromSecret([]byte("dymverif-ibc-relayer"))
 	e.relayer = sdk.AccAddress(e.relPriv.PubKey().Address())
 	e.f.Fund(e.relayer, sdk.NewCoin(ibcDenom, math.NewIntWithDecimal(1, 24)))
@@ -120,7 +147,6 @@ func newIbcEnv(t *testing.T, nSeq int) *ibcEnv {
 	}
 	e.anteH = ah
 	e.fixCtx()
-	return e
 }
 
 // ---- rollapp side ------------------------------------------------------------------------------
@@ -171,9 +197,7 @@ func ibcRoot(tag uint64) []byte {
 
 // ---- tendermint side ---------------------------------------------------------------------------
 
-func (e *ibcEnv) valset(ai int) *cmttypes.ValidatorSet {
-	return cmttypes.NewValidatorSet([]*cmttypes.Validator{cmttypes.NewValidator(e.seqPriv[ai].PubKey(), 1)})
-}
+func (e *ibcEnv) valset(ai int) *cmttypes.ValidatorSet { return e.valsetOf([]hdrVal{{ai, 1, true}}) }
 
 func (e *ibcEnv) valHash(ai int) []byte { return e.valset(ai).Hash() }
 
@@ -221,40 +245,59 @@ func (e *ibcEnv) createClient(cs *ibctm.ClientState, ts time.Time, root []byte, 
 	return id, err
 }
 
-type hdrSpec struct {
-	ChainID       string
-	Height        uint64
-	Trusted       uint64
-	Time          time.Time
-	Root          []byte
-	Signer        int // validator (really signing)
-	TrustedSigner int // trusted validator set
-	NextVal       int // next validators = that sequencer's valset; -1 = garbage hash
-	Proposer      int // ValidatorSet.Proposer / Header.ProposerAddress: sequencer index; -1 = unknown key
-	ProposerData  int // Header.ProposerAddress if different from Proposer (-2 = same)
-	AppVersion    uint64
+type hdrVal struct {
+	Actor int // sequencer actor index (any index has a deterministic key, registered on the hub or not)
+	Power int64
+	Signs bool
 }
 
-func (e *ibcEnv) unknownVal() *cmttypes.Validator {
-	priv := cmted25519.GenPrivKeyFromSecret([]byte("dymverif-ibc-unknown-validator"))
-	return cmttypes.NewValidator(priv.PubKey(), 1)
+type hdrSpec struct {
+	ChainID      string
+	Height       uint64
+	Trusted      uint64
+	Time         time.Time
+	Root         []byte
+	Vals         []hdrVal // validator set of the header
+	TrustedVals  []hdrVal // trusted validator set (must hash to the trusted consensus state's next validators)
+	NextVal      int      // next validators = that actor's single-validator set
+	NextGarbage  bool     // next validators hash = a hash of nothing known
+	Proposer     int      // ValidatorSet.Proposer: actor index; < 0 = a key outside every set
+	ProposerData int      // Header.ProposerAddress: actor index; -2 = same as Proposer
+	AppVersion   uint64
+}
+
+func (e *ibcEnv) actorPriv(i int) cmted25519.PrivKey {
+	if i >= 0 && i < len(e.seqPriv) {
+		return e.seqPriv[i]
+	}
+	return cmted25519.GenPrivKeyFromSecret([]byte(fmt.Sprintf("dymverif-ibc-unknown-validator-%d", i)))
 }
 
 func (e *ibcEnv) proposerVal(i int) *cmttypes.Validator {
-	if i < 0 || i >= len(e.seqPriv) {
-		return e.unknownVal()
+	return cmttypes.NewValidator(e.actorPriv(i).PubKey(), 1)
+}
+
+func (e *ibcEnv) valsetOf(vs []hdrVal) *cmttypes.ValidatorSet {
+	var out []*cmttypes.Validator
+	for _, v := range vs {
+		out = append(out, cmttypes.NewValidator(e.actorPriv(v.Actor).PubKey(), v.Power))
 	}
-	return cmttypes.NewValidator(e.seqPriv[i].PubKey(), 1)
+	return cmttypes.NewValidatorSet(out)
 }
 
 // header builds and signs a tendermint header the way ibc-go's testing package does
 func (e *ibcEnv) header(s hdrSpec) *ibctm.Header {
-	vals := e.valset(s.Signer)
+	vals := e.valsetOf(s.Vals)
 	nextHash := tmhash.Sum([]byte("garbage-next-vals"))
-	if s.NextVal >= 0 {
-		nextHash = e.valHash(s.NextVal)
+	if !s.NextGarbage {
+		nextHash = e.valsetOf([]hdrVal{{s.NextVal, 1, true}}).Hash()
 	}
 	prop := e.proposerVal(s.Proposer)
+	for _, v := range vals.Validators { // the proposer entry carries its power when it is a member
+		if string(v.Address) == string(prop.Address) {
+			prop = v.Copy()
+		}
+	}
 	propData := prop.Address
 	if s.ProposerData != -2 {
 		propData = e.proposerVal(s.ProposerData).Address
@@ -275,11 +318,28 @@ func (e *ibcEnv) header(s hdrSpec) *ibctm.Header {
 		ProposerAddress:    propData,
 	}
 	blockID := cmttypes.BlockID{Hash: h.Hash(), PartSetHeader: cmttypes.PartSetHeader{Total: 3, Hash: tmhash.Sum([]byte("part_set"))}}
-	voteSet := cmttypes.NewVoteSet(s.ChainID, int64(s.Height), 1, cmtproto.PrecommitType, vals)
-	pv := cmttypes.NewMockPVWithParams(e.seqPriv[s.Signer], false, false)
-	ext, err := cmttypes.MakeExtCommit(blockID, int64(s.Height), 1, voteSet, []cmttypes.PrivValidator{pv}, s.Time, false)
-	if err != nil {
-		e.t.Fatal(err)
+	// commit: one signature slot per validator in validator-set order, absent for non-signers
+	commit := &cmttypes.Commit{Height: int64(s.Height), Round: 1, BlockID: blockID}
+	for idx, v := range vals.Validators {
+		signs := false
+		var priv cmted25519.PrivKey
+		for _, sv := range s.Vals {
+			p := e.actorPriv(sv.Actor)
+			if string(p.PubKey().Address()) == string(v.Address) {
+				signs, priv = sv.Signs, p
+			}
+		}
+		if !signs {
+			commit.Signatures = append(commit.Signatures, cmttypes.NewCommitSigAbsent())
+			continue
+		}
+		vote := &cmttypes.Vote{Type: cmtproto.PrecommitType, Height: int64(s.Height), Round: 1, BlockID: blockID, Timestamp: s.Time,
+			ValidatorAddress: v.Address, ValidatorIndex: int32(idx)}
+		sig, err := priv.Sign(cmttypes.VoteSignBytes(s.ChainID, vote.ToProto()))
+		if err != nil {
+			e.t.Fatal(err)
+		}
+		commit.Signatures = append(commit.Signatures, cmttypes.CommitSig{BlockIDFlag: cmttypes.BlockIDFlagCommit, ValidatorAddress: v.Address, Timestamp: s.Time, Signature: sig})
 	}
 	vp, err := vals.ToProto()
 	if err != nil {
@@ -290,12 +350,12 @@ func (e *ibcEnv) header(s hdrSpec) *ibctm.Header {
 		e.t.Fatal(err)
 	}
 	vp.Proposer = pp
-	tv, err := e.valset(s.TrustedSigner).ToProto()
+	tv, err := e.valsetOf(s.TrustedVals).ToProto()
 	if err != nil {
 		e.t.Fatal(err)
 	}
 	return &ibctm.Header{
-		SignedHeader:      &cmtproto.SignedHeader{Header: h.ToProto(), Commit: ext.ToCommit().ToProto()},
+		SignedHeader:      &cmtproto.SignedHeader{Header: h.ToProto(), Commit: commit.ToProto()},
 		ValidatorSet:      vp,
 		TrustedHeight:     clienttypes.NewHeight(rev, s.Trusted),
 		TrustedValidators: tv,
@@ -355,6 +415,25 @@ func (e *ibcEnv) runTx(msgs ...sdk.Msg) (anteErr, msgErr error) {
 	tx, err := e.signedTx(msgs...)
 	if err != nil {
 		return err, nil
+	}
+	// baseapp.validateBasicTxMsgs comes before the ante handler
+	func() {
+		defer func() {
+			if r := recover(); r != nil {
+				anteErr = &PanicError{Val: r}
+			}
+		}()
+		for _, m := range msgs {
+			if vb, ok := m.(sdk.HasValidateBasic); ok {
+				if err := vb.ValidateBasic(); err != nil {
+					anteErr = fmt.Errorf("validate basic: %w", err)
+					return
+				}
+			}
+		}
+	}()
+	if anteErr != nil {
+		return anteErr, nil
 	}
 	base := e.f.Ctx.WithBlockGasMeter(storetypes.NewInfiniteGasMeter())
 	actx, awrite := base.CacheContext()
